@@ -148,6 +148,29 @@ def send_bin_update(peer_ip):""")],
         LOG.info("[%s]Send a BGP KeepAlive message to the peer.", self.factory.peer_addr)""")],
     'C18-routerefresh-counted-as-update': [(P, "        self.msg_recv_stat['RouteRefresh'] += 1\n        LOG.info(\n            '[%s]Route Refresh message received",
                                             "        self.msg_recv_stat['Updates'] += 1\n        LOG.info(\n            '[%s]Route Refresh message received")],
+    # ---- C08
+    'C08-segment-list-length-off-by-one': [('yabgp/message/attribute/tunnelencaps.py', "struct.pack('!H', len(weight_hex) + len(seg_hex) + 1) +\\\n                        b'\\x00' + weight_hex + seg_hex",
+                                            "struct.pack('!H', len(weight_hex) + len(seg_hex)) +\\\n                        b'\\x00' + weight_hex + seg_hex")],
+    'C08-mp-unreach-wrong-flag': [('yabgp/message/attribute/mpunreachnlri.py', "    FLAG = AttributeFlag.OPTIONAL + AttributeFlag.EXTENDED_LENGTH", "    FLAG = AttributeFlag.OPTIONAL + AttributeFlag.TRANSITIVE + AttributeFlag.EXTENDED_LENGTH")],
+    # ---- C09
+    'C09-ignore-extended-length': [(U, "                if flags & AttributeFlag.EXTENDED_LENGTH:\n                    attr_len = struct.unpack('!H', postfix[2:4])[0]",
+                                    "                if flags & AttributeFlag.EXTENDED_LENGTH and postfix[2:3] != b'\\x00':\n                    attr_len = struct.unpack('!H', postfix[2:4])[0]")],
+    'C09-origin-3-accepted': [('yabgp/message/attribute/origin.py', "        if orgin not in [cls.IGP, cls.EGP, cls.INCOMPLETE]:", "        if orgin > 3:")],
+    # ---- C15
+    'C15-path-id-only-on-first-route': [('yabgp/message/attribute/nlri/ipv6_unicast.py', "            if addpath:\n                path_id = struct.unpack(\"!I\", nlri_data[:4])[0]\n                nlri_data = nlri_data[4:]",
+                                         "            if addpath and (not nlri_list or len(nlri_data) > 21):\n                path_id = struct.unpack(\"!I\", nlri_data[:4])[0]\n                nlri_data = nlri_data[4:]")],
+    'C15-attributes-keyed-by-flags': [(U, "                attributes[type_code] = decode_value\n", "                attributes[type_code if not (flags & AttributeFlag.EXTENDED_LENGTH and type_code == 4) else 5] = decode_value\n")],
+    # ---- C17
+    'C17-route-origin-ipv4-as-target': [(V1, "                            ext_community.append([259, vau.strip()])\n                        else:\n                            if res['peer']['capability']['remote']:\n                                four_bytes_as = res['peer']['capability']['remote']['four_bytes_as']\n                            else:\n                                return flask.jsonify({\n                                    'status': False,\n                                    'code': 'please check peer state'\n                                })\n                            nums = vau.strip().split(':', 1)\n                            if int(nums[0].strip()) > 65535 and four_bytes_as:\n                                ext_community.append([515, vau.strip()])\n                            elif not four_bytes_as and int(nums[0].strip()) > 65535:\n                                return flask.jsonify({\n                                    'status': False,\n                                    'code': 'peer not support as num of greater than 65535'\n                                })\n                            else:\n                                ext_community.append([3, vau.strip()])\n                elif key.strip().lower() == 'redirect-vrf':",
+                                         "                            ext_community.append([258, vau.strip()])\n                        else:\n                            if res['peer']['capability']['remote']:\n                                four_bytes_as = res['peer']['capability']['remote']['four_bytes_as']\n                            else:\n                                return flask.jsonify({\n                                    'status': False,\n                                    'code': 'please check peer state'\n                                })\n                            nums = vau.strip().split(':', 1)\n                            if int(nums[0].strip()) > 65535 and four_bytes_as:\n                                ext_community.append([515, vau.strip()])\n                            elif not four_bytes_as and int(nums[0].strip()) > 65535:\n                                return flask.jsonify({\n                                    'status': False,\n                                    'code': 'peer not support as num of greater than 65535'\n                                })\n                            else:\n                                ext_community.append([3, vau.strip()])\n                elif key.strip().lower() == 'redirect-vrf':")],
+    'C17-large-community-signed-again': [('yabgp/message/attribute/largecommunity.py', "struct.unpack('!%dI' % length, value)", "struct.unpack('!%di' % length, value)")],
+    # ---- C19
+    'C19-rib-survives-connection-loss': [(P, "        LOG.debug('Called connectionLost')\n        self.init_rib()\n", "        LOG.debug('Called connectionLost')\n")],
+    'C19-version-bumps-on-identical-reannounce': [(P, "                    if msg['attr'] == self.adj_rib_in['ipv4'][prefix]:\n                        pass\n                    else:\n                        self.receive_version['ipv4'] += 1",
+                                                   "                    self.receive_version['ipv4'] += 1")],
+    # ---- C20
+    'C20-sequence-incremented-twice-on-error-path': [('yabgp/handler/default_handler.py', "            msg_file.write('\\n')\n            self.msg_sequence[peer.lower()] += 1", "            msg_file.write('\\n')\n            self.msg_sequence[peer.lower()] += 1 if msg_type != 6 else 2")],
+    'C20-files-sorted-reversed': [('yabgp/handler/default_handler.py', "        file_list.sort()\n        msg_file_name = file_list[-1]", "        file_list.sort(reverse=True)\n        msg_file_name = file_list[-1]")],
 }
 
 if __name__ == '__main__':
